@@ -1,7 +1,14 @@
 // C06: comparison is a total order; operators, overloads and hashes agree with it.
 #include <string_theory/string>
 
+#include <algorithm>
+#include <concepts>
 #include <functional>
+#include <map>
+#include <memory>
+#include <set>
+#include <unordered_map>
+#include <unordered_set>
 
 #include "common/verif.h"
 #include "ref/ref_compare.h"
@@ -67,11 +74,15 @@ std::string nstr(size_t n) {
 template <class T> int nlist(const Vec<T> &x, const Vec<T> &y, size_t extra, size_t *out) {
     size_t cpl = ref::common_prefix(x.data(), x.size(), y.data(), y.size());
     size_t mx = x.size() > y.size() ? x.size() : y.size();
-    size_t cand[] = {0, 1, cpl ? cpl - 1 : 0, cpl, cpl + 1, x.size(), y.size(), mx + 1, (size_t)1 << 31, SIZE_MAX, extra};
+    const size_t yz = ref::zlen(y.data(), y.size());     // what a NUL-terminated view of y can see
+    size_t cand[] = {0, 1, cpl ? cpl - 1 : 0, cpl, cpl + 1, x.size(), y.size(), mx + 1, (size_t)1 << 31, SIZE_MAX, extra,
+                     x.size() ? x.size() - 1 : 0, x.size() + 1, y.size() ? y.size() - 1 : 0, y.size() + 1, yz, yz + 1, mx + 2};
     int k = 0;
     for (size_t c : cand) { bool dup = false; for (int i = 0; i < k; i++) dup |= out[i] == c; if (!dup) out[k++] = c; }
     return k;
 }
+
+static const char *const opn[3] = {"a", "b", "c"};
 
 struct Fail {
     std::string why;
@@ -92,6 +103,20 @@ struct Fail {
     bool bad() const { return !why.empty(); }
 };
 
+// Operand of another type on the LEFT of == / != (C++20 rewritten candidates, or a free operator where the library has one).
+// -1: the expression is not well-formed with this toolchain / tree, so there is nothing to check.
+template <class L, class R> int try_eq(const L &l, const R &r) {
+    if constexpr (requires { { l == r } -> std::convertible_to<bool>; }) return (l == r) ? 1 : 0; else return -1;
+}
+template <class L, class R> int try_ne(const L &l, const R &r) {
+    if constexpr (requires { { l != r } -> std::convertible_to<bool>; }) return (l != r) ? 1 : 0; else return -1;
+}
+
+// the small-buffer rule, from the library's configuration macros (never a hard-coded number)
+template <class T> constexpr size_t in_object_units() {
+    return (ST_MAX_SSO_LENGTH * sizeof(T)) > ST_MAX_SSO_SIZE ? (ST_MAX_SSO_SIZE / sizeof(T)) : (size_t)ST_MAX_SSO_LENGTH;
+}
+
 // ---- buffer<T>: every form of one ordered pair --------------------------------------------------------------
 template <class T> void check_pair_buffer(const Vec<T> &x, const Vec<T> &y, size_t extra_n, const char *xn, const char *yn, Fail &f) {
     typedef ST::buffer<T> B;
@@ -106,7 +131,7 @@ template <class T> void check_pair_buffer(const Vec<T> &x, const Vec<T> &y, size
     if (!f.truth(X < Y, want < 0, "buffer <", xn, yn)) return;
     if (!f.sign(B::compare(bx.p, x.size(), by.p, y.size()), want, "buffer::compare(p,ls,q,rs)", xn, yn)) return;
     if (!f.sign(X.compare(cy.p), wantz, "buffer::compare(const T*)", xn, yn, "(pointer operand ends at its first NUL)")) return;
-    size_t ns[12]; int k = nlist(x, y, extra_n, ns);
+    size_t ns[20]; int k = nlist(x, y, extra_n, ns);
     for (int i = 0; i < k; i++) {
         const size_t n = ns[i];
         f.has_n = true; f.n = n;
@@ -142,6 +167,21 @@ void check_pair_string(const Vec<char> &x, const Vec<char> &y, size_t extra_n, c
     if (!f.sign(X.compare(cy8), wantz, "string::compare(const char8_t*)", xn, yn)) return;
     if (!f.truth(X == cy8, wantz == 0, "string == const char8_t*", xn, yn)) return;
     if (!f.truth(X != cy8, wantz != 0, "string != const char8_t*", xn, yn)) return;
+    if (!f.sign(X.compare(cy8, ST::case_sensitive), wantz, "string::compare(const char8_t*,case_sensitive)", xn, yn)) return;
+    {   // the C string / char8_t string on the LEFT
+        const char *lp = cy.p; int v;
+        if ((v = try_eq(lp, X)) >= 0 && !f.truth(v != 0, wantz == 0, "const char*(y) == string(x)", xn, yn)) return;
+        if ((v = try_ne(lp, X)) >= 0 && !f.truth(v != 0, wantz != 0, "const char*(y) != string(x)", xn, yn)) return;
+        if ((v = try_eq(cy8, X)) >= 0 && !f.truth(v != 0, wantz == 0, "const char8_t*(y) == string(x)", xn, yn)) return;
+        if ((v = try_ne(cy8, X)) >= 0 && !f.truth(v != 0, wantz != 0, "const char8_t*(y) != string(x)", xn, yn)) return;
+    }
+    {   // the three-argument helpers behind ends_with: exactly m units of each side
+        const size_t m = lx < ly ? lx : ly;
+        if (!f.sign(_ST_PRIVATE::compare_cs(bx.p, by.p, m), ref::cmp(x.data(), m, y.data(), m), "compare_cs(p,q,min(ls,rs))", xn, yn)) return;
+        const int c3 = _ST_PRIVATE::compare_ci(bx.p, by.p, m);
+        if (!f.truth(c3 == 0, ref::fold_equal(x.data(), m, y.data(), m), "compare_ci(p,q,min(ls,rs)) == 0", xn, yn)) return;
+        if (!f.sign(_ST_PRIVATE::compare_ci(by.p, bx.p, m), -sgn(c3), "compare_ci(q,p,m) against -compare_ci(p,q,m)", xn, yn)) return;
+    }
 
     // case-insensitive: only the equivalence and the preorder laws are fixed (soundness rule 3d)
     const int ci = X.compare_i(Y), rev = Y.compare_i(X);
@@ -157,10 +197,13 @@ void check_pair_string(const Vec<char> &x, const Vec<char> &y, size_t extra_n, c
     if (!f.sign(X.compare_i(cy.p), sgn(ciz), "string::compare_i(const char*) against compare_i(string cut at first NUL)", xn, yn)) return;
     if (!f.sign(X.compare(cy.p, ST::case_insensitive), sgn(ciz), "string::compare(const char*,case_insensitive) against compare_i", xn, yn)) return;
     if (!f.sign(X.compare_i(cy8), sgn(ciz), "string::compare_i(const char8_t*) against compare_i", xn, yn)) return;
+    if (!f.sign(X.compare(cy8, ST::case_insensitive), sgn(ciz), "string::compare(const char8_t*,case_insensitive) against compare_i", xn, yn)) return;
+    if (!f.truth(ciz == 0 ? !ST::less_i()(X, Yz) && !ST::less_i()(Yz, X) && ST::equal_i()(X, Yz) : ST::less_i()(X, Yz) == (ciz < 0) && ST::less_i()(Yz, X) == (ciz > 0) && !ST::equal_i()(Yz, X),
+                 true, "less_i / equal_i (both orders) against compare_i(y cut at its first NUL)", xn, yn)) return;
     if (feq && ST::hash_i()(X) != ST::hash_i()(Y)) { f.truth(false, true, "hash_i(x) == hash_i(y) for fold-equal strings", xn, yn); return; }
     if (want == 0 && (ST::hash()(X) != ST::hash()(Y) || std::hash<ST::string>()(X) != std::hash<ST::string>()(Y))) { f.truth(false, true, "hash(x) == hash(y) for equal strings", xn, yn); return; }
 
-    size_t ns[12]; int k = nlist(x, y, extra_n, ns);
+    size_t ns[20]; int k = nlist(x, y, extra_n, ns);
     for (int i = 0; i < k; i++) {
         const size_t n = ns[i];
         f.has_n = true; f.n = n;
@@ -184,6 +227,9 @@ void check_pair_string(const Vec<char> &x, const Vec<char> &y, size_t extra_n, c
         if (!f.sign(cinz, sgn(Xn.compare_i(Yzn)), "string::compare_ni(const char*,n) against compare_i of the first n units", xn, yn)) return;
         if (!f.sign(X.compare_n(cy.p, n, ST::case_insensitive), sgn(cinz), "string::compare_n(const char*,n,case_insensitive) against compare_ni", xn, yn)) return;
         if (!f.sign(X.compare_ni(cy8, n), sgn(cinz), "string::compare_ni(const char8_t*,n) against compare_ni(const char*)", xn, yn)) return;
+        if (!f.sign(X.compare_n(cy8, n, ST::case_sensitive), wnz, "string::compare_n(const char8_t*,n,case_sensitive)", xn, yn)) return;
+        if (!f.sign(X.compare_n(cy8, n, ST::case_insensitive), sgn(cinz), "string::compare_n(const char8_t*,n,case_insensitive) against compare_ni", xn, yn)) return;
+        if (!f.sign(X.compare_n(cy.p, n, ST::case_sensitive), wnz, "string::compare_n(const char*,n,case_sensitive)", xn, yn)) return;
     }
     f.has_n = false;
 }
@@ -232,6 +278,332 @@ void check_operand_string(const Vec<char> &x, const char *xn, Fail &f) {
     if (!f.truth(ST::hash_i()(X) == ST::hash_i()(up) && ST::hash_i()(X) == ST::hash_i()(lo), true, "hash_i(x) == hash_i(to_upper(x)) == hash_i(to_lower(x))", xn, xn)) return;
 }
 
+// ---- one operand against "nothing": ST::null on either side, a null pointer, empty buffers of every origin ----------
+// (a null `const T *` is modelled as the empty text: every such overload tests for it explicitly)
+template <class T> void check_operand_buffer(const Vec<T> &x, const char *xn, Fail &f) {
+    typedef ST::buffer<T> B;
+    Blk<T> bx(x.data(), x.size());
+    const B X(bx.p, x.size());
+    const bool e = x.empty();
+    const int vs_empty = e ? 0 : 1;
+    const char *en = "(y = nothing)";
+    if (!f.truth(X == ST::null, e, "buffer == ST::null", xn, xn)) return;
+    if (!f.truth(X != ST::null, !e, "buffer != ST::null", xn, xn)) return;
+    if (!f.truth(ST::operator==(ST::null, X), e, "operator==(ST::null, buffer)", xn, xn)) return;
+    if (!f.truth(ST::operator!=(ST::null, X), !e, "operator!=(ST::null, buffer)", xn, xn)) return;
+    int v;
+    if ((v = try_eq(ST::null, X)) >= 0 && !f.truth(v != 0, e, "ST::null == buffer", xn, xn)) return;
+    if ((v = try_ne(ST::null, X)) >= 0 && !f.truth(v != 0, !e, "ST::null != buffer", xn, xn)) return;
+    const T *np = nullptr;
+    if (!f.sign(X.compare(np), vs_empty, "buffer::compare((const T*)nullptr)", xn, xn, en)) return;
+    for (size_t n : {(size_t)0, (size_t)1, x.size(), SIZE_MAX}) {
+        f.has_n = true; f.n = n;
+        if (!f.sign(X.compare_n(np, n), n ? vs_empty : 0, "buffer::compare_n((const T*)nullptr,n)", xn, xn, en)) return;
+    }
+    f.has_n = false;
+    const B E0, E1(np, 0), E2(ST::null), E3((size_t)0, (T)'x');
+    B E4(bx.p, x.size()); E4.clear();
+    static const char *const ename[] = {"(y = default-constructed buffer)", "(y = buffer(nullptr, 0))", "(y = buffer(ST::null))", "(y = buffer(0, fill))", "(y = a copy of x after clear())"};
+    const B *es[] = {&E0, &E1, &E2, &E3, &E4};
+    for (int i = 0; i < 5; i++) {
+        const B &E = *es[i];
+        if (E.size() != 0) continue;                // what clear()/construction leave behind is C03/C05's business
+        if (!f.sign(X.compare(E), vs_empty, "buffer::compare(buffer)", xn, xn, ename[i])) return;
+        if (!f.sign(E.compare(X), -vs_empty, "buffer::compare(buffer) swapped", xn, xn, ename[i])) return;
+        if (!f.truth(X == E, e, "buffer ==", xn, xn, ename[i])) return;
+        if (!f.truth(E != X, !e, "buffer != swapped", xn, xn, ename[i])) return;
+        if (!f.truth(E < X, !e, "buffer < swapped", xn, xn, ename[i])) return;
+        if (!f.truth(X < E, false, "buffer <", xn, xn, ename[i])) return;
+        if (!f.sign(X.compare_n(E, SIZE_MAX), vs_empty, "buffer::compare_n(buffer,SIZE_MAX)", xn, xn, ename[i])) return;
+        if (!f.sign(B::compare(bx.p, x.size(), E.data(), 0), vs_empty, "buffer::compare(p,ls,q,0)", xn, xn, ename[i])) return;
+    }
+}
+
+void check_operand_string_nothing(const Vec<char> &x, const char *xn, Fail &f) {
+    Blk<char> bx(x.data(), x.size());
+    const ST::string X = ST::string::from_validated(bx.p, x.size());
+    const bool e = x.empty();
+    const int vs_empty = e ? 0 : 1;
+    const char *en = "(y = nothing)";
+    if (!f.truth(X == ST::null, e, "string == ST::null", xn, xn)) return;
+    if (!f.truth(X != ST::null, !e, "string != ST::null", xn, xn)) return;
+    if (!f.truth(ST::operator==(ST::null, X), e, "operator==(ST::null, string)", xn, xn)) return;
+    if (!f.truth(ST::operator!=(ST::null, X), !e, "operator!=(ST::null, string)", xn, xn)) return;
+    int v;
+    if ((v = try_eq(ST::null, X)) >= 0 && !f.truth(v != 0, e, "ST::null == string", xn, xn)) return;
+    if ((v = try_ne(ST::null, X)) >= 0 && !f.truth(v != 0, !e, "ST::null != string", xn, xn)) return;
+    const char *np = nullptr; const char8_t *np8 = nullptr;
+    if (!f.sign(X.compare(np), vs_empty, "string::compare((const char*)nullptr)", xn, xn, en)) return;
+    if (!f.sign(X.compare(np8), vs_empty, "string::compare((const char8_t*)nullptr)", xn, xn, en)) return;
+    if (!f.sign(X.compare(np, ST::case_insensitive), vs_empty, "string::compare((const char*)nullptr,case_insensitive)", xn, xn, en)) return;
+    if (!f.sign(X.compare_i(np), vs_empty, "string::compare_i((const char*)nullptr)", xn, xn, en)) return;
+    if (!f.sign(X.compare_i(np8), vs_empty, "string::compare_i((const char8_t*)nullptr)", xn, xn, en)) return;
+    if (!f.truth(X == np, e, "string == (const char*)nullptr", xn, xn, en)) return;
+    if (!f.truth(X != np, !e, "string != (const char*)nullptr", xn, xn, en)) return;
+    if (!f.truth(X == np8, e, "string == (const char8_t*)nullptr", xn, xn, en)) return;
+    if (!f.truth(X != np8, !e, "string != (const char8_t*)nullptr", xn, xn, en)) return;
+    for (size_t n : {(size_t)0, (size_t)1, x.size(), SIZE_MAX}) {
+        f.has_n = true; f.n = n;
+        const int w = n ? vs_empty : 0;
+        if (!f.sign(X.compare_n(np, n), w, "string::compare_n((const char*)nullptr,n)", xn, xn, en)) return;
+        if (!f.sign(X.compare_n(np8, n), w, "string::compare_n((const char8_t*)nullptr,n)", xn, xn, en)) return;
+        if (!f.sign(X.compare_ni(np, n), w, "string::compare_ni((const char*)nullptr,n)", xn, xn, en)) return;
+        if (!f.sign(X.compare_ni(np8, n), w, "string::compare_ni((const char8_t*)nullptr,n)", xn, xn, en)) return;
+    }
+    f.has_n = false;
+    const ST::string E0, E1(ST::null), E2 = ST::string::from_validated(np, 0);
+    ST::string E3 = X; E3.clear();
+    static const char *const ename[] = {"(y = default-constructed string)", "(y = string(ST::null))", "(y = from_validated(nullptr, 0))", "(y = a copy of x after clear())"};
+    const ST::string *es[] = {&E0, &E1, &E2, &E3};
+    for (int i = 0; i < 4; i++) {
+        const ST::string &E = *es[i];
+        if (E.size() != 0) continue;
+        if (!f.sign(X.compare(E), vs_empty, "string::compare(string)", xn, xn, ename[i])) return;
+        if (!f.sign(E.compare(X), -vs_empty, "string::compare(string) swapped", xn, xn, ename[i])) return;
+        if (!f.sign(X.compare_i(E), vs_empty, "string::compare_i(string)", xn, xn, ename[i])) return;
+        if (!f.sign(E.compare_ni(X, SIZE_MAX), -vs_empty, "string::compare_ni(string,SIZE_MAX) swapped", xn, xn, ename[i])) return;
+        if (!f.truth(X == E, e, "string == string", xn, xn, ename[i])) return;
+        if (!f.truth(E != X, !e, "string != string swapped", xn, xn, ename[i])) return;
+        if (!f.truth(E < X, !e, "string < string swapped", xn, xn, ename[i])) return;
+        if (!f.truth(ST::less_i()(E, X), !e, "less_i swapped", xn, xn, ename[i])) return;
+        if (!f.truth(ST::equal_i()(E, X), e, "equal_i swapped", xn, xn, ename[i])) return;
+        if (!f.truth(ST::hash()(E) == ST::hash()(E0) && ST::hash_i()(E) == ST::hash_i()(E0) && std::hash<ST::string>()(E) == std::hash<ST::string>()(E0), true, "hash/hash_i/std::hash of two empty strings", xn, xn, ename[i])) return;
+    }
+}
+
+// ---- objects in unusual pre-states: a comparison may depend on the current contents only, never on stale bytes -----------
+// Every object is brought to hold the operand's units through a different sequence of public operations; the oracle then
+// works on the contents the object itself reports (size(), data()), so a moved-from or cleared object takes part with
+// whatever valid value it has.
+enum { N_BSTATE = 15 };
+static const char *const bstate_name[N_BSTATE] = {
+    "built from (pointer,length)",
+    "held a short text, was copy-assigned a long one, allocate(n), refilled",
+    "held a short text, was copy-assigned a long one, allocate(n, fill), refilled",
+    "moved-from, then allocate(n), refilled",
+    "held a short text, clear(), allocate(n), refilled",
+    "copy-constructed from a buffer with stale in-object bytes",
+    "move-constructed from a buffer with stale in-object bytes",
+    "a long value, copy-assigned from a buffer with stale in-object bytes",
+    "a short value, move-assigned from a buffer with stale in-object bytes",
+    "made by operator\"\"_stbuf(pointer,length)",
+    "buffer(count, fill) overwritten [buffer(nullptr,0) when empty]",
+    "assigned ST::null, allocate(n), refilled [buffer(ST::null) when empty]",
+    "moved-from (value as the object reports it)",
+    "clear()ed (value as the object reports it)",
+    "self-copy-assigned and self-move-assigned",
+};
+
+template <class T> std::unique_ptr<ST::buffer<T>> make_buffer(int k, const T *p, size_t n) {
+    typedef ST::buffer<T> B;
+    static const T shortText[7] = {(T)'s', (T)'t', (T)'A', (T)'l', (T)'e', (T)0xFF, (T)'Z'};
+    T longText[40];
+    for (int i = 0; i < 40; i++) longText[i] = (T)(unsigned char)"Lorem-IPSUM"[i % 11];
+    auto put = [&](B &b) { if (n) memcpy(b.data(), p, n * sizeof(T)); };
+    auto refill = [&](B &b) { b.allocate(n); put(b); };
+    auto stale = [&]() { auto b = std::make_unique<B>(shortText, 7); const B lg(longText, 40); *b = lg; refill(*b); return b; };
+    switch (k) {
+    default: return std::make_unique<B>(p, n);
+    case 1: return stale();
+    case 2: { auto b = std::make_unique<B>(shortText, 7); const B lg(longText, 40); *b = lg; b->allocate(n, (T)'#'); put(*b); return b; }
+    case 3: { auto t = std::make_unique<B>(longText, 40); B u(std::move(*t)); refill(*t); return t; }
+    case 4: { auto b = std::make_unique<B>(shortText, 7); b->clear(); refill(*b); return b; }
+    case 5: { auto s = stale(); return std::make_unique<B>(*s); }
+    case 6: { auto s = stale(); return std::make_unique<B>(std::move(*s)); }
+    case 7: { auto s = stale(); auto b = std::make_unique<B>(longText, 40); *b = *s; return b; }
+    case 8: { auto s = stale(); auto b = std::make_unique<B>(shortText, 7); *b = std::move(*s); return b; }
+    case 9: return std::make_unique<B>(ST::literals::operator""_stbuf(p, n));
+    case 10: { if (!n) return std::make_unique<B>((const T *)nullptr, (size_t)0); auto b = std::make_unique<B>(n, p[0]); put(*b); return b; }
+    case 11: { if (!n) return std::make_unique<B>(ST::null); auto b = std::make_unique<B>(longText, 40); *b = ST::null; refill(*b); return b; }
+    case 12: { auto t = std::make_unique<B>(p, n); B u(std::move(*t)); return t; }
+    case 13: { auto t = std::make_unique<B>(p, n); t->clear(); return t; }
+    case 14: { auto t = std::make_unique<B>(p, n); B &r = *t; *t = r; *t = std::move(r); return t; }
+    }
+}
+
+template <class T> struct StateBuf { std::unique_ptr<ST::buffer<T>> b; Vec<T> v; };
+template <class T> void make_buffer_states(const Vec<T> &x, std::vector<StateBuf<T>> &out) {
+    Blk<T> bx(x.data(), x.size());
+    out.resize(N_BSTATE);
+    for (int k = 0; k < N_BSTATE; k++) {
+        out[k].b = make_buffer<T>(k, bx.p, x.size());
+        out[k].v.assign(out[k].b->data(), out[k].b->data() + out[k].b->size());     // the value the object reports now
+    }
+}
+template <class T> bool check_state_pair_buffer(const StateBuf<T> &sx, int kx, const StateBuf<T> &sy, int ky, const char *xn, const char *yn, Fail &f) {
+    typedef ST::buffer<T> B;
+    const B &X = *sx.b, &Y = *sy.b;
+    const Vec<T> &x = sx.v, &y = sy.v;
+    const int want = ref::cmp(x.data(), x.size(), y.data(), y.size());
+    const size_t cpl = ref::common_prefix(x.data(), x.size(), y.data(), y.size());
+    bool ok = f.sign(X.compare(Y), want, "buffer::compare(buffer)", xn, yn) && f.sign(Y.compare(X), -want, "buffer::compare(buffer) swapped", xn, yn) &&
+              f.truth(X == Y, want == 0, "buffer ==", xn, yn) && f.truth(Y != X, want != 0, "buffer != swapped", xn, yn) &&
+              f.truth(X < Y, want < 0, "buffer <", xn, yn) && f.truth(Y < X, want > 0, "buffer < swapped", xn, yn) &&
+              f.sign(X.compare_n(Y, cpl + 1), ref::cmp_n(x.data(), x.size(), y.data(), y.size(), cpl + 1), "buffer::compare_n(buffer, common prefix + 1)", xn, yn) &&
+              f.sign(Y.compare_n(X, cpl), 0, "buffer::compare_n(buffer, common prefix) swapped", xn, yn);
+    if (!ok) f.why += std::string(" [the units are those the objects report; x: ") + bstate_name[kx] + "; y: " + bstate_name[ky] + "]";
+    return ok;
+}
+
+enum { N_SSTATE = 13 };
+static const char *const sstate_name[N_SSTATE] = {
+    "from_validated(pointer,length)",
+    "from_validated(char_buffer&&) of a buffer with stale in-object bytes",
+    "from_validated(const char_buffer&) of a buffer with stale in-object bytes",
+    "a long value, then set_validated(pointer,length)",
+    "a short value, then set_validated(const char_buffer&) of a buffer with stale in-object bytes",
+    "a long value, then set_validated(char_buffer&&)",
+    "made by operator\"\"_st(pointer,length)",
+    "from_validated(const char8_t*,length)",
+    "a long value, clear(), then copy-assigned",
+    "moved-from, then move-assigned",
+    "a long value, assigned ST::null, then set_validated(const char8_t*,length)",
+    "moved-from (value as the object reports it)",
+    "substr of a longer string",
+};
+std::unique_ptr<ST::string> make_string(int k, const char *p, size_t n) {
+    typedef ST::string S;
+    static const char longText[] = "The quick brown fox jumps over the lazy dog \xC3\xBF";
+    switch (k) {
+    default: return std::make_unique<S>(S::from_validated(p, n));
+    case 1: { auto b = make_buffer<char>(1, p, n); return std::make_unique<S>(S::from_validated(std::move(*b))); }
+    case 2: { auto b = make_buffer<char>(1, p, n); const ST::char_buffer &cb = *b; return std::make_unique<S>(S::from_validated(cb)); }
+    case 3: { auto s = std::make_unique<S>(S::from_validated(longText, sizeof longText - 1)); s->set_validated(p, n); return s; }
+    case 4: { auto b = make_buffer<char>(1, p, n); const ST::char_buffer &cb = *b; auto s = std::make_unique<S>(S::from_validated("short", 5)); s->set_validated(cb); return s; }
+    case 5: { auto b = make_buffer<char>(2, p, n); auto s = std::make_unique<S>(S::from_validated(longText, sizeof longText - 1)); s->set_validated(std::move(*b)); return s; }
+    case 6: return std::make_unique<S>(ST::literals::operator""_st(p, n));
+    case 7: return std::make_unique<S>(S::from_validated(reinterpret_cast<const char8_t *>(p), n));
+    case 8: { const S x = S::from_validated(p, n); auto s = std::make_unique<S>(S::from_validated(longText, sizeof longText - 1)); s->clear(); *s = x; return s; }
+    case 9: { auto t = std::make_unique<S>(S::from_validated(longText, sizeof longText - 1)); S u(std::move(*t)); *t = S::from_validated(p, n); return t; }
+    case 10: { auto s = std::make_unique<S>(S::from_validated(longText, sizeof longText - 1)); *s = ST::null; s->set_validated(reinterpret_cast<const char8_t *>(p), n); return s; }
+    case 11: { auto t = std::make_unique<S>(S::from_validated(p, n)); S u(std::move(*t)); return t; }
+    case 12: { std::string framed = "\x7F<<" + std::string(p, n) + ">>\x80 tail tail tail"; const S big = S::from_validated(framed.data(), framed.size()); return std::make_unique<S>(big.substr(3, n)); }
+    }
+}
+struct StateStr { std::unique_ptr<ST::string> s; Vec<char> v; };
+void make_string_states(const Vec<char> &x, std::vector<StateStr> &out) {
+    Blk<char> bx(x.data(), x.size());
+    out.resize(N_SSTATE);
+    for (int k = 0; k < N_SSTATE; k++) {
+        out[k].s = make_string(k, bx.p, x.size());
+        out[k].v.assign(out[k].s->c_str(), out[k].s->c_str() + out[k].s->size());
+    }
+}
+bool check_state_pair_string(const StateStr &sx, int kx, const StateStr &sy, int ky, const char *xn, const char *yn, Fail &f) {
+    const ST::string &X = *sx.s, &Y = *sy.s;
+    const Vec<char> &x = sx.v, &y = sy.v;
+    const int want = ref::cmp(x.data(), x.size(), y.data(), y.size());
+    const bool feq = ref::fold_equal(x.data(), x.size(), y.data(), y.size());
+    const int ci = X.compare_i(Y);
+    bool ok = f.sign(X.compare(Y), want, "string::compare(string)", xn, yn) && f.sign(Y.compare(X), -want, "string::compare(string) swapped", xn, yn) &&
+              f.truth(X == Y, want == 0, "string == string", xn, yn) && f.truth(Y != X, want != 0, "string != string swapped", xn, yn) &&
+              f.truth(X < Y, want < 0, "string < string", xn, yn) && f.truth(Y < X, want > 0, "string < string swapped", xn, yn) &&
+              f.truth(ci == 0, feq, "string::compare_i(string) == 0", xn, yn) && f.sign(Y.compare_i(X), -sgn(ci), "string::compare_i swapped against the negated sign", xn, yn) &&
+              f.truth(ST::equal_i()(Y, X), feq, "equal_i swapped", xn, yn) && f.truth(ST::less_i()(X, Y), ci < 0, "less_i against compare_i", xn, yn) &&
+              f.sign(X.compare_n(Y, SIZE_MAX), want, "string::compare_n(string,SIZE_MAX)", xn, yn) &&
+              (want != 0 || (f.truth(ST::hash()(X) == ST::hash()(Y), true, "hash(x) == hash(y) for equal strings", xn, yn) &&
+                             f.truth(std::hash<ST::string>()(X) == std::hash<ST::string>()(Y), true, "std::hash(x) == std::hash(y) for equal strings", xn, yn))) &&
+              (!feq || f.truth(ST::hash_i()(X) == ST::hash_i()(Y), true, "hash_i(x) == hash_i(y) for fold-equal strings", xn, yn));
+    if (!ok) f.why += std::string(" [the bytes are those the objects report; x: ") + sstate_name[kx] + "; y: " + sstate_name[ky] + "]";
+    return ok;
+}
+
+// ---- the order, the equality and the hashes at work inside standard containers ----------------------------------------------
+template <class T> std::string values(const std::vector<Vec<T>> &v) { std::string o; for (const Vec<T> &x : v) { if (!o.empty()) o += ", "; o += show(x); } return o; }
+
+template <class T> std::string check_containers_buffer(const std::vector<StateBuf<T>> (&st)[3]) {
+    typedef ST::buffer<T> B;
+    std::vector<Vec<T>> vals; std::vector<const B *> objs;
+    for (int i = 0; i < 3; i++) for (int k : {0, 1 + (int)((st[i][0].v.size() + 5 * i) % (N_BSTATE - 1))}) { vals.push_back(st[i][k].v); objs.push_back(st[i][k].b.get()); }
+    const size_t nd = ref::count_distinct(vals);
+    const std::vector<Vec<T>> order = ref::sorted_by_cmp(vals);
+    std::set<B> s;
+    for (const B *b : objs) s.insert(*b);
+    if (s.size() != nd) return "std::set<buffer> (operator<) of the values {" + values(vals) + "} holds " + verif::unum(s.size()) + " elements, distinct values: " + verif::unum(nd);
+    { size_t i = 0; const Vec<T> *prev = nullptr;
+      for (const B &b : s) { while (prev && i < order.size() && ref::cmp(order[i].data(), order[i].size(), prev->data(), prev->size()) == 0) i++;
+          if (i >= order.size() || b.size() != order[i].size() || (b.size() && memcmp(b.data(), order[i].data(), b.size() * sizeof(T)) != 0))
+              return "std::set<buffer> (operator<) of the values {" + values(vals) + "} does not iterate in the reference order";
+          prev = &order[i]; } }
+    for (const B *b : objs) if (s.count(*b) != 1) return "std::set<buffer>::count of an inserted value is not 1 (values {" + values(vals) + "})";
+    std::vector<B> sv;
+    for (const B *b : objs) sv.push_back(*b);
+    std::sort(sv.begin(), sv.end());
+    for (size_t i = 0; i < sv.size(); i++)
+        if (sv[i].size() != order[i].size() || (order[i].size() && memcmp(sv[i].data(), order[i].data(), order[i].size() * sizeof(T)) != 0))
+            return "std::sort (operator<) of the buffers {" + values(vals) + "} differs from the reference order at position " + verif::unum(i);
+    return std::string();
+}
+
+std::string check_containers_string(const std::vector<StateStr> (&st)[3]) {
+    typedef ST::string S;
+    std::vector<Vec<char>> vals; std::vector<const S *> objs;
+    for (int i = 0; i < 3; i++) for (int k : {0, 1 + (int)((st[i][0].v.size() + 5 * i) % (N_SSTATE - 1)), 1 + (int)((st[i][0].v.size() + 5 * i + 4) % (N_SSTATE - 1))}) { vals.push_back(st[i][k].v); objs.push_back(st[i][k].s.get()); }
+    const size_t nd = ref::count_distinct(vals), nf = ref::count_fold_classes(vals);
+    const std::vector<Vec<char>> order = ref::sorted_by_cmp(vals);
+    const std::string among = " (values {" + values(vals) + "})";
+    auto same = [](const S &a, const Vec<char> &b) { return a.size() == b.size() && (b.empty() || memcmp(a.c_str(), b.data(), b.size()) == 0); };
+    std::set<S> s1; std::set<S, ST::less_i> s2; std::map<S, size_t> m1;
+    std::unordered_set<S> u1; std::unordered_set<S, ST::hash> u2; std::unordered_set<S, ST::hash_i, ST::equal_i> u3;
+    std::unordered_map<S, size_t, ST::hash_i, ST::equal_i> um; std::map<S, size_t, ST::less_i> m2;
+    for (size_t i = 0; i < objs.size(); i++) { const S &x = *objs[i]; s1.insert(x); s2.insert(x); m1[x] = i; u1.insert(x); u2.insert(x); u3.insert(x); um[x] = i; m2[x] = i; }
+    if (s1.size() != nd) return "std::set<ST::string> holds " + verif::unum(s1.size()) + " elements, distinct values: " + verif::unum(nd) + among;
+    if (m1.size() != nd) return "std::map<ST::string,...> holds " + verif::unum(m1.size()) + " keys, distinct values: " + verif::unum(nd) + among;
+    if (u1.size() != nd) return "std::unordered_set<ST::string> (std::hash, ==) holds " + verif::unum(u1.size()) + " elements, distinct values: " + verif::unum(nd) + among;
+    if (u2.size() != nd) return "std::unordered_set<ST::string, ST::hash> holds " + verif::unum(u2.size()) + " elements, distinct values: " + verif::unum(nd) + among;
+    if (s2.size() != nf) return "std::set<ST::string, ST::less_i> holds " + verif::unum(s2.size()) + " elements, classes after folding A-Z: " + verif::unum(nf) + among;
+    if (m2.size() != nf) return "std::map<ST::string,..., ST::less_i> holds " + verif::unum(m2.size()) + " keys, classes after folding A-Z: " + verif::unum(nf) + among;
+    if (u3.size() != nf) return "std::unordered_set<ST::string, ST::hash_i, ST::equal_i> holds " + verif::unum(u3.size()) + " elements, classes after folding A-Z: " + verif::unum(nf) + among;
+    if (um.size() != nf) return "std::unordered_map<ST::string,..., ST::hash_i, ST::equal_i> holds " + verif::unum(um.size()) + " keys, classes after folding A-Z: " + verif::unum(nf) + among;
+    { size_t i = 0; const Vec<char> *prev = nullptr;
+      for (const S &x : s1) { while (prev && i < order.size() && ref::cmp(order[i].data(), order[i].size(), prev->data(), prev->size()) == 0) i++;
+          if (i >= order.size() || !same(x, order[i])) return "std::set<ST::string> does not iterate in the reference order" + among;
+          prev = &order[i]; } }
+    for (size_t i = 0; i < objs.size(); i++) {
+        const S &x = *objs[i];
+        // look every value up through an equal string with another history, and through its upper/lower-cased forms
+        const S alt = ST::string::from_validated(vals[i].data(), vals[i].size());
+        const S up = alt.to_upper(), lo = alt.to_lower();
+        if (s1.count(alt) != 1 || m1.count(alt) != 1 || u1.count(alt) != 1 || u2.count(alt) != 1) return "an inserted value is not found again in set/map/unordered_set keyed by <, == and hash: " + show(vals[i]) + among;
+        if (!same(*s1.find(alt), vals[i]) || !same(*u1.find(alt), vals[i])) return "set/unordered_set lookup of " + show(vals[i]) + " returns a different value" + among;
+        for (const S *q : {&x, &alt, &up, &lo}) {
+            if (s2.count(*q) != 1 || m2.count(*q) != 1 || u3.count(*q) != 1 || um.count(*q) != 1)
+                return "a value equal after folding A-Z to an inserted one is not found in a container keyed by less_i or hash_i/equal_i: " + show(vals[i]) + among;
+            const S &hit = *u3.find(*q);
+            if (!ref::fold_equal(hit.c_str(), hit.size(), vals[i].data(), vals[i].size())) return "hash_i/equal_i lookup of " + show(vals[i]) + " returns a value that is not equal to it after folding" + among;
+        }
+    }
+    std::vector<S> sv;
+    for (const S *x : objs) sv.push_back(*x);
+    std::sort(sv.begin(), sv.end());
+    for (size_t i = 0; i < sv.size(); i++) if (!same(sv[i], order[i])) return "std::sort (operator<) of the strings differs from the reference order at position " + verif::unum(i) + among;
+    std::sort(sv.begin(), sv.end(), ST::less_i());
+    for (size_t i = 1; i < sv.size(); i++) if (sv[i].compare_i(sv[i - 1]) < 0) return "std::sort with ST::less_i leaves a descending neighbour pair at position " + verif::unum(i) + among;
+    return std::string();
+}
+
+// all of the above for one triple
+template <class T> std::string check_states_and_containers(const Vec<T> (&v)[3], bool containers) {
+    Fail f;
+    std::vector<StateBuf<T>> sb[3];
+    for (int i = 0; i < 3; i++) { check_operand_buffer<T>(v[i], opn[i], f); if (f.bad()) return f.why; make_buffer_states<T>(v[i], sb[i]); }
+    for (int i = 0; i < 3; i++) for (int j = i; j < 3; j++) for (int k = 0; k < N_BSTATE; k++) {
+        const int ky = (k * 4 + 1 + i + 2 * j) % N_BSTATE;     // 4 is coprime to 15: every state meets a different one
+        if (!check_state_pair_buffer<T>(sb[i][k], k, sb[j][ky], ky, opn[i], opn[j], f)) return f.why;
+    }
+    if (containers) { std::string why = check_containers_buffer<T>(sb); if (!why.empty()) return why; }
+    if constexpr (std::is_same<T, char>::value) {
+        std::vector<StateStr> ss[3];
+        for (int i = 0; i < 3; i++) { check_operand_string_nothing(v[i], opn[i], f); if (f.bad()) return f.why; make_string_states(v[i], ss[i]); }
+        for (int i = 0; i < 3; i++) for (int j = i; j < 3; j++) for (int k = 0; k < N_SSTATE; k++) {
+            const int ky = (k * 5 + 1 + i + 2 * j) % N_SSTATE;
+            if (!check_state_pair_string(ss[i][k], k, ss[j][ky], ky, opn[i], opn[j], f)) return f.why;
+        }
+        if (containers) { std::string why = check_containers_string(ss); if (!why.empty()) return why; }
+    }
+    return std::string();
+}
+
 // preorder laws on a sign matrix M[i][j] = sign(compare(v_i, v_j))
 bool transitive(const int *M, int n, int &bi, int &bj, int &bk) {
     for (int i = 0; i < n; i++) for (int j = 0; j < n; j++) {
@@ -246,7 +618,6 @@ bool transitive(const int *M, int n, int &bi, int &bj, int &bk) {
 }
 
 template <class T> struct Triple { Vec<T> v[3]; size_t extra_n = 0; };
-static const char *const opn[3] = {"a", "b", "c"};
 
 template <class T> bool nontrivial_pair(const Vec<T> &x, const Vec<T> &y) {
     size_t cpl = ref::common_prefix(x.data(), x.size(), y.data(), y.size());
@@ -283,6 +654,8 @@ template <class T> std::string check_triple(const Triple<T> &t) {
             for (int i = 0; i < 3 && !f.bad(); i++) check_operand_string(t.v[i], opn[i], f);
             if (f.bad()) return f.why;
         }
+        // ST::null / null pointers / empty objects, objects in unusual pre-states, standard containers
+        { std::string why = check_states_and_containers<T>(t.v, true); if (!why.empty()) return why; }
     } catch (...) {
         return "unexpected " + verif::describe_current_exception();
     }
